@@ -184,13 +184,35 @@ def bits(b) -> str:
 def exc_name(e: BaseException) -> str:
     return "!" + type(e).__name__
 
+class CallTimeout(BaseException):
+    """an implementation call did not return within CALL_LIMIT_S (derived from BaseException: the library has bare
+    `except Exception` handlers that would otherwise swallow it and carry on)"""
+
+CALL_LIMIT_S = float(os.environ.get("VERIF_CALL_LIMIT_S", "12"))
+
 def guard(f):
+    """runs one call into the implementation; an exception becomes `!<TypeName>`; a call that does not return within
+    CALL_LIMIT_S becomes `!Timeout` (every property here implies termination; a hang must be a reply, not a hung check)"""
+    import signal, threading
+    use_alarm = threading.current_thread() is threading.main_thread()
+    if use_alarm:
+        def onalarm(signum, frame):
+            raise CallTimeout()
+        old = signal.signal(signal.SIGALRM, onalarm)
+        prev = signal.setitimer(signal.ITIMER_REAL, CALL_LIMIT_S)
     try:
         return f()
     except RecursionError:
         raise
+    except CallTimeout:
+        return "!Timeout"
     except Exception as e:  # noqa
         return exc_name(e)
+    finally:
+        if use_alarm:
+            # restore an enclosing guard's timer (with what is left of it) or switch the timer off
+            signal.setitimer(signal.ITIMER_REAL, prev[0] if prev and prev[0] > 0 else 0)
+            signal.signal(signal.SIGALRM, old)
 
 # ---------------------------------------------------------------- known findings
 
